@@ -22,6 +22,10 @@ func checkC03(r *Run) {
 	ruleMsgLayout(r, p)
 	ruleHookPlumbing(r, p)
 	ruleLevelSlots(r, p, "HOOKS", "LevelHook", "Run", "Hook", 2)
+	// "each once" is counted in members of the event object: the buffer typestate (also judged in
+	// C01) decides that the context splice, the fields and the hook fields are whole members
+	// separated exactly once (an empty embedded object adds nothing, not even a separator)
+	ruleA2(r, p)
 	r.Floor("NEWEV", 5)
 	r.Floor("MSG", 7)
 	r.Floor("HOOKS", 14)
